@@ -73,7 +73,11 @@ def main(argv=None):
     part.violations.sort(key=lambda v: (len(v["case"].get("vector", ())) if
                                         isinstance(v["case"], dict) else 0,
                                         len(json.dumps(v["case"], default=repr))))
+    unconfirmed = 0
     for viol in part.violations:
+        if (prop, viol["key"]) not in known and len(new) >= MAX_REPORTED:
+            unconfirmed += 1            # beyond what is reported: not re-executed
+            continue
         # a violation is only believed after it reproduces twice from a fresh start
         try:
             again = [module.replay(viol["case"]) for _ in range(2)]
@@ -115,8 +119,8 @@ def main(argv=None):
             handle.write("\n")
         print(f"VIOLATION property={prop} replay={path}")
         print(f"  key: {viol['key']}\n  what: {viol['msg']}")
-    if len(new) > MAX_REPORTED:
-        print(f"  ... and {len(new) - MAX_REPORTED} further distinct violation keys")
+    if unconfirmed:
+        print(f"  ... and {unconfirmed} further distinct violation keys (not re-executed)")
 
     wall = time.time() - t_0
     coverage.setdefault("exhaustive", True)
